@@ -1,7 +1,7 @@
 (* C10 — timing engine.  Property theorems only: each is closed by [exact] from Proofs/. *)
 From Coq Require Import ZArith QArith Qround Qabs List Bool.
-From RV Require Import Base.PyNum Timing.Snapper Timing.Snap Timing.TimingMap Timing.Integrate
-  Generated.Tables Proofs.SnapperProofs Proofs.TimingProofs.
+From RV Require Import Base.PyNum Timing.Snapper Timing.Snap Timing.TimingMap Timing.Integrate Timing.Domain
+  Generated.Tables Proofs.SnapperProofs Proofs.TimingProofs Proofs.RederiveProofs.
 Import ListNotations.
 Open Scope Q_scope.
 
@@ -45,6 +45,25 @@ Theorem C10_offsets_integrate : forall tbl bcos qs bcss p0 rest,
   exists res, tm_offsets tbl bcos qs = Some res
               /\ Forall2 (fun q r => r == time_of (p_t p0) (map snd (p0 :: rest)) q) qs res.
 Proof. exact offsets_integrate_b. Qed.
+
+(* CLOSED FORM.  For every tempo script on the snap grid (first change at measure 0 beat 0; strictly increasing,
+   normalised positions; any positive bpms; integer metronomes; consecutive changes a table fraction of a beat apart -
+   the boolean domainb below, which is also what the correspondence runner checks for every generated case), any
+   initial offset including negative, and any queries at or after the first change, in any order, with duplicates:
+   TimingMap.from_bpm_changes_snap(init, script, reseat=False).offsets(queries) succeeds and equals, query by query,
+   the piecewise-linear integration of beat length over the script's tempo segments.  This includes the fact that the
+   positions the TimingMap re-derives from its millisecond offsets (bpm_changes_offset_to_snap, through the snapper)
+   are the script's own positions. *)
+Theorem C10_offsets_on_grid : forall init l qs, domainb tbl l qs = true ->
+  exists bcos res, from_bcs init l = Some bcos
+                   /\ tm_offsets tbl bcos qs = Some res
+                   /\ Forall2 (fun q r => r == time_of init l q) qs res.
+Proof. exact (offsets_on_grid_b tbl C10_table_ok). Qed.
+
+Example C10_on_grid_example :
+  domainb tbl [mkBcs 120 4 (mkSnap 0 0 4); mkBcs 175 4 (mkSnap 1 (3#2) 4); mkBcs 90 3 (mkSnap 3 0 3); mkBcs 200 3 (mkSnap 3 (7#3) 3)]
+              [mkSnap 4 1 3; mkSnap 0 0 4; mkSnap 3 (7#3) 3; mkSnap 1 (3#2) 4; mkSnap 4 1 3] = true.
+Proof. vm_compute. reflexivity. Qed.
 
 (* non-vacuity of the hypotheses: three tempo changes given out of order, negative initial offset, metronome 3,
    queries unsorted with a duplicate and one exactly on a change *)
